@@ -482,7 +482,25 @@ func c06Split(c *Ctx, rc recCase, whole mon.Outcome) {
 		return req
 	}
 	var h0, c0 *ref.T = rc.h0, rc.c0
-	o1, _ := mon.RunOpAPI(mk(sliceSeq(rc.x, 0, s), h0, c0))
+	// in half of the cases every call of this relation receives the SAME weight tensor
+	// objects (W, R, B, P, initial states), as a caller holding its weights would pass them
+	runAPI := func(q mon.OpReq) mon.Outcome { o, _ := mon.RunOpAPI(q); return o }
+	if c.Idx%2 == 0 {
+		sr := mon.NewSharedRunner()
+		if o := sr.Run(rc.req); o.Kind != mon.Value {
+			c.Violation(rc.op+":shared-weights-whole-run-fails", "the whole sequence runs on fresh tensors but not on the caller's weight objects: %s", trunc(o.Describe(), 300))
+			return
+		}
+		runAPI = sr.Run
+		defer func() {
+			again := sr.Run(rc.req)
+			c.Eval(1)
+			if d := diffOutcomes(whole, again); d != "" {
+				c.Violation(rc.op+":second-whole-run-differs", "operator API, same weight tensor objects: the whole sequence run again after the two pieces differs: %s | %s", d, trunc(rc.req.Describe(), 300))
+			}
+		}()
+	}
+	o1 := runAPI(mk(sliceSeq(rc.x, 0, s), h0, c0))
 	c.Eval(1)
 	if o1.Kind != mon.Value || len(o1.Vals) < 2 {
 		c.Violation(rc.op+":split-first-piece-fails", "whole sequence runs, the first %d steps do not: %s", s, trunc(o1.Describe(), 300))
@@ -495,7 +513,7 @@ func c06Split(c *Ctx, rc recCase, whole mon.Outcome) {
 		}
 		c1 = o1.Vals[2]
 	}
-	o2, _ := mon.RunOpAPI(mk(sliceSeq(rc.x, s, rc.S), o1.Vals[1], c1))
+	o2 := runAPI(mk(sliceSeq(rc.x, s, rc.S), o1.Vals[1], c1))
 	c.Eval(1)
 	if o2.Kind != mon.Value || len(o2.Vals) < 2 {
 		c.Violation(rc.op+":split-second-piece-fails", "whole sequence runs, steps %d.. with the fed-back state do not: %s", s, trunc(o2.Describe(), 300))
